@@ -28,7 +28,7 @@ from .keywords import keywords
 from pydjinni.parser.base_models import BaseExternalType, BaseType, BaseField, TypeReference, DataField, BaseCommentModel
 from pydjinni.generator.validator import validate
 
-from pydjinni.generator.filters import headers, quote
+from pydjinni.generator.filters import headers, quote, string_literal
 
 
 class CppCliExternalType(BaseModel):
@@ -72,7 +72,7 @@ class CppCliBaseCommentModel(BaseModel):
     def deprecated(self):
         message = ""
         if isinstance(self.decl.deprecated, str):
-            message = '("' + self.decl.deprecated.replace('\\', r'\\').replace('\n', r'\n').replace('"', r'\"') + '")'
+            message = '(' + string_literal(self.decl.deprecated) + ')'
         return f"[System::Obsolete{message}]"
 
 
